@@ -154,7 +154,7 @@ type Case struct {
 // unclassifiedErrorMatches: real = "err other:<text> rest…", model = "err <class> rest…" with equal rests.
 func unclassifiedErrorMatches(real, model string) bool {
 	ra, mb := strings.Fields(real), strings.Fields(model)
-	if len(ra) < 2 || len(mb) < 2 || len(ra) != len(mb) || ra[0] != "err" || mb[0] != "err" || !strings.HasPrefix(ra[1], "other:") {
+	if len(ra) < 2 || len(mb) < 2 || len(ra) != len(mb) || ra[0] != "err" || mb[0] != "err" || !(ra[1] == "other" || strings.HasPrefix(ra[1], "other:")) {
 		return false
 	}
 	for i := 2; i < len(ra); i++ {
